@@ -91,7 +91,10 @@ func TestLinkedFiles(t *testing.T) {
 		"every file registered in protoregistry.GlobalFiles (all generated packages of the repository are linked) except files NewFile cannot accept in this build: files declaring a MessageSet message (rejected by design without -tags protolegacy; they are in the domain of the legacy leg) and files whose imports are not registered (legacy.proto); non-trivial = at least 3 of {extension, map, oneof, proto3 optional, default, editions feature, nesting >= 2, import}",
 		true,
 		func(yield func(linkedCase, bool) bool) {
-			for _, fd := range descsnap.LinkedFiles() {
+			for i, fd := range descsnap.LinkedFiles() {
+				if int64(i)%pbt.NShards != pbt.Shard {
+					continue // thorough tier: the enumeration is split over the shards
+				}
 				if why := descsnap.OutOfDomain(fd); why != "" {
 					skipped[fd.Path()] = why
 					continue
@@ -108,7 +111,7 @@ func TestLinkedFiles(t *testing.T) {
 		}, checkLinked)
 	pbt.S.SetExtra("linked_files_checked", n)
 	pbt.S.SetExtra("linked_files_out_of_domain", skipped)
-	if min := map[bool]int{false: 40, true: 5}[descsnap.LegacyLegOnly()]; n < min {
+	if min := map[bool]int{false: 40, true: 5}[descsnap.LegacyLegOnly()]; pbt.NShards == 1 && n < min {
 		t.Errorf("only %d linked files: the corpus is not linked in", n)
 	}
 }
